@@ -3,6 +3,7 @@ Various utility functions for mapping constrained sensors locations with the col
 indices for class GQR.
 """
 
+import importlib.util
 import os
 import sys
 
@@ -130,9 +131,18 @@ def load_functional_constraints(functionHandler):
     # splitext removes the ".py" extension; str.strip(".py") would strip the
     # characters '.', 'p' and 'y' from both ends ("happy.py" -> "ha").
     functionName = os.path.splitext(os.path.basename(functionHandler))[0]
-    dirName = os.path.dirname(functionHandler)
-    sys.path.insert(0, os.path.expanduser(dirName))
-    module = __import__(functionName)
+    path = os.path.expanduser(functionHandler)
+    if os.path.isfile(path):
+        # Load that very file: a plain import would hand back an already imported
+        # module of the same name (json.py, or a file of the same name loaded
+        # earlier from another directory).
+        spec = importlib.util.spec_from_file_location(functionName, path)
+        module = importlib.util.module_from_spec(spec)
+        spec.loader.exec_module(module)
+    else:
+        dirName = os.path.dirname(functionHandler)
+        sys.path.insert(0, os.path.expanduser(dirName))
+        module = __import__(functionName)
     func = getattr(module, functionName)
     return func
 
